@@ -84,6 +84,10 @@ pub enum Op {
     MEqMetaView,
     /// `smap.extend (('k', v),)` through the generic-iterable arm
     MExtendIter(String, i64),
+    /// `own = {}; own.extend smap; own`: the shared map as the ARGUMENT of extend (one read)
+    MExtendOwnFromShared,
+    /// `own = {z: 0}; own + smap` hmm: a fresh map built from a literal and the shared map
+    MAddOwn,
     // class N: not atomic by construction (user callbacks / one lock per element)
     NForCount,
     NToList,
@@ -174,6 +178,8 @@ impl Op {
             RetainValue(v) => format!("shared.retain {v}\nnull"),
             SwapOwn(a, b) => format!("own = [{a}, {b}]\nshared.swap own\nown.to_tuple()"),
             ExtendOwnFromShared(a) => format!("own = [{a}]\nown.extend shared\nown.to_tuple()"),
+            MExtendOwnFromShared => "own = {}\nown.extend smap\nown".into(),
+            MAddOwn => "own = {}\nown + smap".into(),
             ExtendRange(a) => format!("shared.extend {a}..{}\nnull", a + 3),
             ExtendIter(a) => format!("shared.extend ({a}..{}).each |v| v\nnull", a + 3),
             MInsert(k, v) => format!("smap.insert '{k}', {v}"),
@@ -440,7 +446,7 @@ pub fn apply(m: &mut Model, op: &Op) -> String {
             // map equality in koto is order-sensitive? decided by the sequential self-check
             (m.map == *kv).to_string()
         }
-        MCopy | MDisplay => fmt_map(&m.map),
+        MCopy | MDisplay | MExtendOwnFromShared | MAddOwn => fmt_map(&m.map),
         MEqSelf | MEqMetaView => "true".into(),
         MExtendIter(k, v) => {
             if let Some(e) = m.map.iter_mut().find(|(kk, _)| kk == k) {
@@ -583,6 +589,9 @@ fn gen_op(r: &mut Rng, thread: usize, n: &mut i64, target_list: bool, allow_n: b
             20 => Op::MEqSelf,
             21 => Op::MEqMetaView,
             22 => Op::MExtendIter(key(r), fresh()),
+            23 if r.chance(1, 2) => {
+                if r.chance(1, 2) { Op::MExtendOwnFromShared } else { Op::MAddOwn }
+            }
             _ => Op::MInsert(key(r), fresh()),
         }
     }
@@ -1178,6 +1187,8 @@ fn parse_op(s: &str) -> Option<Op> {
         "RetainValue" => RetainValue(int(0)?),
         "SwapOwn" => SwapOwn(int(0)?, int(1)?),
         "ExtendOwnFromShared" => ExtendOwnFromShared(int(0)?),
+        "MExtendOwnFromShared" => MExtendOwnFromShared,
+        "MAddOwn" => MAddOwn,
         "ExtendRange" => ExtendRange(int(0)?),
         "ExtendIter" => ExtendIter(int(0)?),
         "MEqMetaView" => MEqMetaView,
